@@ -111,6 +111,8 @@ def _ops():
         "concat_origins": safe(lambda r, n: O.concat_origins(n.origin, _CTX["bystander_origin"], r.origin)),
         "origin-add": safe(lambda r, n: (n.origin + r.origin, n.origin + _CTX["bystander_origin"])),
         "origin-queries": safe(lambda r, n: (n.origin.fqn, n.origin.get_raw(), repr(n.origin), hash(n.origin), n.origin == r.origin)),
+        "load-payload-with-a-gap-in-its-collision-suffixes": safe(_load_suffix_gap),
+        "duplicate-the-loaded-tree": safe(lambda r, n: _CTX["loaded"].duplicate() if _CTX.get("loaded") is not None else None),
         "as_obj-payload-carrying-the-id-of-a-live-node": safe(_payload_with_foreign_id),
         "from_json-of-detached-twin-under-digest-size-1": safe(_collision_roundtrip),
     }
@@ -127,6 +129,29 @@ def _payload_with_foreign_id(r, n):
     n.detach()
     d["id"] = _CTX["bystander"].id
     return type(n).as_obj(d)
+
+
+def _load_suffix_gap(r, n):
+    """A payload written elsewhere whose equal leaves carry ids x, x_1, x_3 (no x_2)."""
+    from models.zoo import VMany
+
+    import copy
+
+    # written without ever creating colliding nodes in this process (the payload comes from elsewhere)
+    t = VMany(items=(VLeaf(v=777),))
+    d = t.as_dict()
+    base = d["items"][0]["id"]
+    t.detach()
+    del t
+    items = []
+    for suffix in ("", "_1", "_3"):
+        leaf = copy.deepcopy(d["items"][0])
+        leaf["id"] = base + suffix
+        items.append(leaf)
+    d["items"] = items
+    d["id"] = "payload-root"
+    _CTX["loaded"] = VMany.as_obj(d)
+    return _CTX["loaded"]
 
 
 def _collision_roundtrip(r, n):
@@ -184,6 +209,16 @@ def _deep(v: Any, depth: int = 0) -> Any:
     return repr(v)  # origins, sources, positions, enums, paths: their (generated) repr lists every field
 
 
+def _registered(n: Any) -> bool:
+    from pyoak.node import NODE_REGISTRY
+
+    return NODE_REGISTRY.get(n.id) is n
+
+
+# operations that are specified to take nodes out of the registry (the target and, for detach, its subtree)
+_UNREGISTERING = ("detach", "replace", "roundtrip-after-detach", "as_obj-payload-carrying", "dataclasses.replace-rejected", "replace-rejected")
+
+
 def _snapshot(nodes: dict[int, Any]) -> dict[int, tuple]:
     out = {}
     for k, n in nodes.items():
@@ -191,6 +226,7 @@ def _snapshot(nodes: dict[int, Any]) -> dict[int, tuple]:
         for f in dataclasses.fields(n):
             v = object.__getattribute__(n, f.name)
             vals.append((f.name, id(v), _deep(v)))
+        vals.append(("<registered under its id>", 0, _registered(n)))
         out[k] = (tuple(vals), n.id, n.content_id, hash(n))
     return out
 
@@ -201,12 +237,13 @@ def make_harness(K: int, first_op: str | None, trees: list[int] | None = None):
         ops = _ops()
         names = list(ops)
         # thorough: the third operation comes from the operations that create, unregister or re-create nodes
-        THIRD = [n for n in names if n.startswith(("transform", "duplicate", "replace", "dataclasses", "detach", "roundtrip", "as_obj", "from_json", "eq", "rich", "tree-queries", "findall", "merge_origins", "concat_origins", "origin-add"))]
+        THIRD = [n for n in names if n.startswith(("transform", "duplicate", "replace", "dataclasses", "detach", "roundtrip", "as_obj", "from_json", "load-payload", "eq", "rich", "tree-queries", "findall", "merge_origins", "concat_origins", "origin-add"))]
         tno = e.pick(trees, "tree") if trees else e.choice(len(TREES), "tree")
         root = build(TREES[tno])
         paths = positions_of(TREES[tno])
         existing: dict[int, Any] = {}
         _collect(root, existing)
+        _CTX["loaded"] = None
         _CTX["bystander"] = VLeaf(v=424242)
         _CTX["bystander_origin"] = origin("c")
         _collect(_CTX["bystander"], existing)
@@ -221,10 +258,14 @@ def make_harness(K: int, first_op: str | None, trees: list[int] | None = None):
             history.append(f"{op} on {p or '<root>'}")
             result = ops[op](root, node)
             after = _snapshot(existing)
+            below_target: dict[int, Any] = {}
+            _collect(node, below_target)
             for k in before:
                 if before[k] != after[k]:
                     n = existing[k]
                     diff = [a[0] for a, b in zip(before[k][0], after[k][0]) if a != b] or ["id/content_id/hash"]
+                    if diff == ["<registered under its id>"] and op.startswith(_UNREGISTERING) and k in below_target and before[k][0][-1][2] is True:
+                        continue  # the registry effect specified for detach / replace, on the target's own subtree
                     scenario.update(modified=type(n).__name__, fields=diff)
                     e.fail(f"existing-node-modified:{op}", scenario=scenario)
             _collect(result, existing)
@@ -276,7 +317,7 @@ def spec(tier: str, seed: int) -> Spec:
         bounds={"history_length": "2 on all trees; 3 on trees 0, 1, 5 with the second and third operation from the node-creating / unregistering / comparing operations" if K == 3 else K, "operations": names, "trees": len(TREES), "classes_for_setattr": len(CLASSES)},
         rule="a case = (tree, K operations each with a target node); after every operation every pre-existing node (including nodes created by earlier operations) is compared with its snapshot; distinct by (tree, history)",
         variables="selectors only (bounded exploration of operation histories)",
-        assumptions=["registry membership is excluded from the frame, as the statement allows"],
+        assumptions=["registry membership is part of the frame: an existing node may leave the registry only through detach / detach_self / replace on itself or on an ancestor (detach)"],
         outside=[f"histories longer than {K}", "operations with arguments other than the fixed ones listed", "object.__setattr__ (deliberate bypass)"],
     )
 
